@@ -50,7 +50,8 @@ def run(ctx):
         order = list(B.ALL_MODULES)
         rng.shuffle(order)
         specs.append({"seed": ctx.seed * 100003 + i, "steps": steps, "modules": "all", "order": order if i % 2 else None,
-                      "failpoints": True, "allow_dimension_define": (i % 4 == 3)})
+                      "failpoints": True, "allow_dimension_define": (i % 4 == 3),
+                      "force_failpoint_site": "Dimension.scale->conversions.translate" if i == 0 else None})
     with ThreadPoolExecutor(max_workers=14) as ex:
         results = list(ex.map(run_worker, specs))
     for spec, res in zip(specs, results):
